@@ -1,7 +1,12 @@
 """Write the signatures / collections of a case to files (run under /venv/bin/python with the package
 built from /repo's working tree on PYTHONPATH).  usage: cli_files.py <spec.json>
 spec = {"dir": ..., "sigs": {slot: {"name", "scaled", "track", "pairs": [[h, a], ...]}},
-        "files": [{"path": ..., "kind": "sig|zip|sbt|lca|sql", "sigs": [slots]}]}"""
+        "files": [{"path": ..., "kind": "sig|zip|dir|sbt|lca|sql|pl|mf|multi", "sigs": [slots]}]}
+
+kinds: sig = one JSON file; zip = zip collection; dir = a directory of one-signature files; sbt / lca / sql =
+indexed databases; pl = a pathlist naming a zip collection and a JSON file (a MultiIndex of collections of different kinds);
+mf = a standalone manifest CSV over one-signature files; multi = a directory tree of multi-signature JSON files.
+Also imported by cli_server.py (the in-process command-line runner of the quick tiers)."""
 import json
 import os
 import sys
@@ -10,8 +15,7 @@ from sourmash import MinHash, SourmashSignature
 from sourmash.sourmash_args import SaveSignaturesToLocation
 
 
-def main():
-    spec = json.load(open(sys.argv[1]))
+def make_sigs(spec):
     S = {}
     for slot, d in spec["sigs"].items():
         mh = MinHash(0, 21, scaled=d["scaled"], track_abundance=bool(d["track"]), seed=42)
@@ -20,35 +24,85 @@ def main():
         else:
             mh.add_many([int(h) for h, _ in d["pairs"]])
         S[int(slot)] = SourmashSignature(mh, name=str(d["name"]))
+    return S
+
+
+def _save(p, sigs):
+    with SaveSignaturesToLocation(p) as sv:
+        for x in sigs:
+            sv.add(x)
+
+
+def _one_per_file(d, sigs):
+    os.makedirs(d, exist_ok=True)
+    files = []
+    for k, x in enumerate(sigs):
+        f = os.path.join(d, f"{k:03d}.sig")
+        _save(f, [x])
+        files.append(f)
+    return files
+
+
+def write_file(p, kind, sigs):
+    if kind in ("sig", "zip"):
+        _save(p, sigs)
+    elif kind == "dir":
+        _one_per_file(p, sigs)
+    elif kind == "multi":
+        # a directory tree of multi-signature JSON files (loaded as one MultiIndex)
+        os.makedirs(os.path.join(p, "sub"), exist_ok=True)
+        h = (len(sigs) + 1) // 2
+        _save(os.path.join(p, "a.sig"), sigs[:h])
+        if sigs[h:]:
+            _save(os.path.join(p, "sub", "b.sig"), sigs[h:])
+    elif kind == "pl":
+        # a pathlist naming collections of different kinds: a zip, a JSON file (MultiIndex of them)
+        os.makedirs(p + ".d", exist_ok=True)
+        h = (len(sigs) + 1) // 2
+        files = [os.path.join(p + ".d", "a.zip")]
+        _save(files[0], sigs[:h])
+        if sigs[h:]:
+            files.append(os.path.join(p + ".d", "b.sig"))
+            _save(files[1], sigs[h:])
+        with open(p, "w") as fp:
+            fp.write("\n".join(files) + "\n")
+    elif kind == "mf":
+        from sourmash.manifest import CollectionManifest
+        files = _one_per_file(p + ".d", sigs)
+        m = CollectionManifest.create_manifest(((x, f) for x, f in zip(sigs, files)), include_signature=False)
+        with open(p, "w", newline="") as fp:
+            m.write_to_csv(fp, write_header=True)
+    elif kind == "sbt":
+        from sourmash.sbtmh import create_sbt_index
+        t = create_sbt_index()
+        for x in sigs:
+            t.insert(x)
+        t.save(p)
+    elif kind == "lca":
+        from sourmash.lca import LCA_Database
+        db = LCA_Database(21, sigs[0].minhash.scaled, "DNA")
+        for x in sigs:
+            db.insert(x)
+        db.save(p)
+    elif kind == "sql":
+        from sourmash.index.sqlite_index import SqliteIndex
+        db = SqliteIndex.create(p)
+        for x in sigs:
+            db.insert(x)
+        db.commit()
+        db.close()
+    else:
+        raise ValueError("unknown kind " + kind)
+
+
+def write_spec(spec):
+    S = make_sigs(spec)
     for f in spec["files"]:
-        p = os.path.join(spec["dir"], f["path"])
-        sigs = [S[int(x)] for x in f["sigs"]]
-        kind = f["kind"]
-        if kind in ("sig", "zip"):
-            with SaveSignaturesToLocation(p) as sv:
-                for x in sigs:
-                    sv.add(x)
-        elif kind == "sbt":
-            from sourmash.sbtmh import create_sbt_index
-            t = create_sbt_index()
-            for x in sigs:
-                t.insert(x)
-            t.save(p)
-        elif kind == "lca":
-            from sourmash.lca import LCA_Database
-            db = LCA_Database(21, sigs[0].minhash.scaled, "DNA")
-            for x in sigs:
-                db.insert(x)
-            db.save(p)
-        elif kind == "sql":
-            from sourmash.index.sqlite_index import SqliteIndex
-            db = SqliteIndex.create(p)
-            for x in sigs:
-                db.insert(x)
-            db.commit()
-            db.close()
-        else:
-            raise SystemExit("unknown kind " + kind)
+        write_file(os.path.join(spec["dir"], f["path"]), f["kind"], [S[int(x)] for x in f["sigs"]])
+
+
+def main():
+    write_spec(json.load(open(sys.argv[1])))
     print("ok")
 
 
